@@ -172,6 +172,32 @@ PROPS["C10"] = {
     "assumptions": ["honest senders only (adversarial fragments belong to C08)"],
 }
 
+PROPS["C15"] = {
+    "pkg": "stk", "env": {"SIM_PROP": "C15"},
+    "legs": ["string/tell/sim", "string/ask/mem", "string/ask/mbapp-sim", "varint/tell/sim", "varint/ask/mem", "u16/tell/sim", "u16/ask/mem", "u32/tell/mem", "u32/ask/mem", "u64/tell/sim", "u64/ask/mbapp-sim", "string/tell/mem", "varint/tell/frag-sim"],
+    "runs": {"quick": 2600, "thorough": 150000}, "budget": {"quick": 200, "thorough": 2400},
+    "rule": "one run = one multiplexer kind (string, varint, 16/32/64-bit; tell, ask and secure variants) on 2-3 nodes with 2-5 simultaneously open channels drawn from extremes (empty string, 127/128-byte strings, strings that are prefixes of each other or look like length prefixes, 0, maximal integers, integers whose encodings are prefixes of others), some channels open on one node only; concurrent tells and asks on every channel, payloads include empty ones and ones that start like a header; "
+            "non-trivial = something was delivered or served, more than one channel, several tasks runnable; distinct = distinct scheduler decision traces",
+    "components": TIER_A,
+    "level_text": "seeded exploration of channel sets, traffic and interleavings; a callback of the swarm opened for channel c must only see ledger messages told/asked on channel c with the exact payload; frames captured at the simulated transport: distinct (channel, payload) must give distinct bytes",
+    "level_note": "the universal statement 'framing is a prefix-free injection for every identifier and payload' is a pure function of its input; here it is checked only on the traffic the runs generate (DESIGN.md §7)",
+    "assumptions": ["short payloads (under 12 bytes) cannot carry their channel: they are attributed to any channel on which an equal payload was told"],
+}
+
+ADDR_STACKS = STACKS + ["mapudp/sim", "mapssh/sim", "p2pke/mapudp/sim", "frag/p2pke/mapudp/sim", "mux-string/p2pke/mapudp/sim", "mapudp/frag/mem", "multi/mem+mapudp/sim", "multi/mapssh/mem+p2pke/mapudp/sim",
+                        "mapudp/sim", "mapssh/sim", "p2pke/mapudp/sim"]
+PROPS["C16"] = {
+    "pkg": "stk", "env": {"SIM_PROP": "C16"}, "legs": ADDR_STACKS,
+    "runs": {"quick": 1900, "thorough": 100000}, "budget": {"quick": 200, "thorough": 2400},
+    "rule": "one run = one stack (the 27 catalogue stacks plus 8 whose addresses have the UDP form ip:port and the SSH form fingerprint@ip:port, produced by the address-mapping swarm with udpswarm's and sshswarm's own address types and parsers, alone and nested under P2PKE, fragmenting, multiplexing and multi-transport swarms); per-run hosts are IPv4, IPv6 and IPv4-mapped IPv6 with ports 1..65535, keys and hence fingerprints/peer ids come from the seed; "
+            "every address observed (LocalAddrs of every node, the address every node uses for every other, Src and Dst of every delivered tell and ask) is marshalled and parsed back with the swarm that handed it out and with every other node's swarm; "
+            "non-trivial = more than two addresses round-tripped and traffic was delivered; distinct = distinct scheduler decision traces",
+    "components": TIER_A,
+    "level_text": "invariant on the addresses produced during simulated runs: ParseAddr(MarshalText(a)) marshals back to the same text",
+    "level_note": "'parsing arbitrary text fails cleanly or canonicalises' is pure input generation and is not decided here (DESIGN.md §7); real UDP/TCP sockets are not used: the UDP and SSH address forms are produced through mapswarm",
+    "assumptions": ["equality of addresses is judged on their marshalled text"],
+}
+
 NOT_APPLICABLE = {
     "C17": "pure functions of their input (key/peer-id marshal, parse, equality, fingerprint): no schedule, clock, fault or second party for a simulator to vary; see DESIGN.md §7",
 }
